@@ -1051,6 +1051,16 @@ def emit_rust(path, shapes, mods, T):
         L.append(f"            Err(e) => obs_err(e),")
         L.append(f"            Ok(t) => {{ let sh = t.shape(); let parts: Vec<String> = vec![{', '.join(rng)}]; format!(\"ok {{}}\", parts.join(\" \")) }}")
         L.append(f"        }}")
+        if sh.is_args:
+            rcall = f"read_fonts::ResolveOffset::resolve_with_args::<{tyname}>(&font_types::Offset32::new(off), FontData::new(data), {args})"
+        else:
+            rcall = f"read_fonts::ResolveOffset::resolve::<{tyname}>(&font_types::Offset32::new(off), FontData::new(data))"
+        L.append(f"    }}, resolve: |data, off, args| {{")
+        L.append(f"        match {rcall} {{")
+        L.append(f"            Err(ReadError::NullOffset) => \"null\".to_string(),")
+        L.append(f"            Err(e) => obs_err(e),")
+        L.append(f"            Ok(t) => {{ let sh = t.shape(); let parts: Vec<String> = vec![{', '.join(rng)}]; let _ = &t; format!(\"ok {{}}\", parts.join(\" \")) }}")
+        L.append(f"        }}")
         L.append(f"    }}, getters: |data, args| {{")
         L.append(f"        if let Ok(t) = {call} {{{getters}{minr} let _ = &t; }}")
         L.append(f"    }} }});")
